@@ -94,6 +94,52 @@ func c05Reserved(c c05Case) *imp.World {
 	return w
 }
 
+// c05NumberedBases: every base b such that b followed by a decimal number is a predeclared name.
+func c05NumberedBases() []string {
+	set := map[string]bool{}
+	for _, n := range types.Universe.Names() {
+		i := len(n)
+		for i > 0 && n[i-1] >= '0' && n[i-1] <= '9' {
+			i--
+			if i > 0 && i < len(n) && n[i] != '0' {
+				set[n[:i]] = true
+			}
+		}
+	}
+	var out []string
+	for b := range set {
+		out = append(out, b)
+	}
+	sort.Strings(out)
+	return out
+}
+
+// c05Numbered: k paths whose last element (place 0) or ImportName hint (place 1) is the base.
+func c05Numbered(c c05Case) *imp.World {
+	names := map[string]string{}
+	var paths []string
+	for i := 0; i < c.Extra; i++ {
+		if c.Place == 0 {
+			paths = append(paths, fmt.Sprintf("y%d/%s", i, c.Word))
+		} else {
+			p := fmt.Sprintf("y%d/q", i)
+			paths = append(paths, p)
+			names[p] = c.Word
+		}
+	}
+	w := imp.New("NewFile", "", imp.DefaultTrueName(names))
+	if c.Prefix != "" {
+		w.Prefix(c.Prefix)
+	}
+	for _, p := range paths {
+		if c.Place == 1 {
+			w.Name(p)
+		}
+		w.Ref(p, 0)
+	}
+	return w
+}
+
 // the character classes guessAlias distinguishes
 var c05Classes = []string{"a", "B", "1", "/", ".", "-", "_", "é", "٣", "İ"}
 
@@ -120,6 +166,9 @@ var c05Families = []*family{
 	{name: "rand", ctors: []string{"NewFile"}, paths: []string{"math/rand", "crypto/rand", "x/rand", "y/rand1", "z/rand2"},
 		names:   map[string]string{"x/rand": "rand", "y/rand1": "rand1", "z/rand2": "rand2"},
 		aliases: []string{"rand", "rand1"}, prefixes: []string{"p"}, maxRefs: 4, freeRefs: 4, wrappers: []int{0}, anon: true},
+	{name: "many-names", ctors: []string{"NewFile"}, paths: []string{"x/bar", "x/foo", "x/zed", "y/baz", "w/zed", "v/foo"},
+		names:   map[string]string{},
+		aliases: []string{"zed"}, prefixes: []string{"p"}, maxRefs: 5, freeRefs: 5, wrappers: []int{0, imp.WrapperIndex("dictvalue"), imp.WrapperIndex("dictkey")}, anon: false},
 	{name: "cgo", ctors: []string{"NewFile"}, paths: []string{"C", "b/C", "c/C", "fmt"},
 		names:   map[string]string{"b/C": "C", "c/C": "C"},
 		aliases: []string{"C", "C1"}, prefixes: []string{"p"}, maxRefs: 4, freeRefs: 4, wrappers: []int{0}, anon: true, preambleOpts: [][]string{nil, {"#include <a.h>"}}},
@@ -136,7 +185,7 @@ func runC05(r *ev.Recorder) {
 	r.Rule = fmt.Sprintf("(i) every Go keyword (go/token) and every universe-scope name of the installed toolchain (%d words) x placement {last path element, ImportName, ImportAlias, ImportNames} "+
 		"x prefix on/off x 0..2 competing paths with the same last element x every reference order; (ii) every path string of length 1..%d over the %d character classes guessAlias distinguishes "+
 		"(lower, upper, ASCII digit, '/', '.', '-', '_', non-ASCII letter, non-ASCII digit, a letter whose lower-casing changes length), alone, doubled and tripled (same last element), prefix on/off; "+
-		"(iii) path families competing for one base name: every reference sequence of length <= 4 in every order with <= %d non-default settings (hints, Anon, prefix). "+
+		"(iv) every base b such that b<number> is predeclared (int, uint, float3, complex12, ...) with 1..10 competing paths (by last element / by ImportName), prefix on/off; (iii) path families competing for one base name (one of them with many distinct names and references inside Dict keys/values): every reference sequence of length <= 4 in every order with <= %d non-default settings (hints, Anon, prefix). "+
 		"Oracle on the parsed output: every written import name satisfies token.IsIdentifier, is no keyword and not in types.Universe; no two specs share an effective name; go/types reports no error. "+
 		"distinct_nontrivial = distinct outputs in which jennifer had to rename (some spec carries an alias)", len(c05Words), maxLen, len(c05Classes), dev)
 	r.Assume = []string{"keywords and predeclared identifiers are taken from go/token and go/types of the installed toolchain, never from jennifer",
@@ -185,6 +234,19 @@ func runC05(r *ev.Recorder) {
 		}
 	})
 	r.Count("reserved_word_cases", int64(len(rcases)))
+
+	// (iv) numbered candidates that are themselves predeclared: k paths competing for a base name
+	// whose numbered successors include int8, uint16, float32, complex128, ...
+	for _, base := range c05NumberedBases() {
+		for k := 1; k <= 10; k++ {
+			for place := 0; place < 2; place++ {
+				for _, prefix := range []string{"", "pkg"} {
+					c := c05Case{Kind: "numbered", Word: base, Extra: k, Place: place, Prefix: prefix}
+					judge(c05Numbered(c), c, "c05:numbered")
+				}
+			}
+		}
+	}
 
 	// (ii)
 	n := int64(len(c05Classes))
@@ -250,6 +312,8 @@ func replayC05(raw json.RawMessage) (bool, string) {
 		w = c05Reserved(c)
 	case "path":
 		w = c05PathWorld(c)
+	case "numbered":
+		w = c05Numbered(c)
 	case "family":
 		fam := familyByName(c05Families, c.Family)
 		if fam == nil {
